@@ -125,6 +125,10 @@ func runC14(e *core.Env) {
 			e.Violation("once", "blob-uploaded-twice", "blob %s was committed %d times at the target", short(d), n)
 		}
 		expectBytes += size[d]
+		// on one registry that grants mounts, what the source repository holds arrives by mount, not by upload
+		if c.pairing == "same-registry" && c.src.K.Mount == 0 && hosted[d] && !strings.HasPrefix(c.srcRepo, "restricted/") {
+			e.Violation("mount", "upload-despite-mount", "blob %s (%d bytes) was uploaded into %s although the source repository on the same registry holds it and the registry grants mounts", short(d), size[d], c.tgtRepo)
+		}
 		if c.preBlob[d] {
 			e.Violation("once", "uploaded-blob-present-at-target", "blob %s was uploaded although the target repository already held it", short(d))
 		}
